@@ -116,6 +116,10 @@ void owner_op(char op) {
             client.join();
             break;
         }
+        case 'L':   // the owner lowers the maximum while workers exist: no further worker may be spawned above it
+            g_pool->setMaxThreadCount(1);
+            ev("MaxSet", 0, 0, 1);
+            break;
         case 'G':
             ev("Getters", 0, 0, g_pool->getActiveThreadCount() * 100 + g_pool->getThreadCount());
             break;
@@ -243,11 +247,15 @@ public:
     void op_applied(int thread, vs::OpKind kind, const void *, const void *, const char *, int aux) override {
         if (thread == 0 && kind == vs::OP_NOTIFY_ALL) g_stop_notified = true;
         if (thread == 0 && kind == vs::OP_JOIN && aux >= 0 && aux < MAXT) g_joined[aux] = 1;
-        if (kind == vs::OP_CREATE && g_expect_client && aux >= 0 && aux < MAXT) {
-            g_is_client[aux] = true;
-            g_expect_client = false;
+        if (kind == vs::OP_CREATE && aux >= 0 && aux < MAXT) {
+            if (g_expect_client) {
+                g_is_client[aux] = true;
+                g_expect_client = false;
+            } else {
+                // a worker counts against the maximum from the moment the pool creates it, not from its first step
+                ev("WorkerStart", 0, aux);
+            }
         }
-        if (thread > 0 && thread < MAXT && !g_is_client[thread] && kind == vs::OP_START) ev("WorkerStart", 0, thread);
         if (thread > 0 && thread < MAXT && !g_is_client[thread] && kind == vs::OP_EXIT) ev("WorkerExit", 0, thread);
     }
     void enter_fallback(const std::vector<vs::ThreadView> &) override {
